@@ -16,7 +16,9 @@ struct SecArg {
 static const SecArg SEC_ARGS[] = {{nullptr, ""},   {"", ""},       {"A", "A"},         {"[A]", "A"},
                                   {"B", "B"},      {"[B]", "B"},   {"Sec C", "Sec C"}, {"[Sec C]", "Sec C"}, {"[]", ""},
                                   // two different names with the same djb2 hash (33*'a'+'b' == 33*'b'+'A')
-                                  {"ab", "ab"},    {"bA", "bA"}};
+                                  {"ab", "ab"},    {"bA", "bA"},
+                                  // a name that ends in a bracket without starting with one, and its bracketed spelling
+                                  {"disk[0]", "disk[0]"}, {"[disk[0]]", "disk[0]"}};
 static const uint32_t N_SEC_ARGS = sizeof SEC_ARGS / sizeof SEC_ARGS[0];
 
 inline const std::vector<std::string> &hist_keys() {
